@@ -321,18 +321,38 @@ def created_predicates_agree(ctx, rc):
                 if isinstance(g, Func) and g.cls == C and \
                         not g.is_public and g not in fs:
                     fs.append(g)
+        # the flags (with the value they must have) on which the positive
+        # outcome of the view depends: "returns True" for the predicates,
+        # "appends the entry" for the list - read off the control
+        # dependence, so that negations, De Morgan and early ``continue``
+        # make no difference
+        sgv = ctx.E.super(m, lambda g: g in fs and g is not m)
+        targets = [x.id for x in sgv.nodes if x.kind == 'leaf' and
+                   x.call is not None and isinstance(
+                       x.call.func, ast.Attribute) and
+                   x.call.func.attr in ('append', 'add')]
         used = set()
-        for f0 in fs:
-            for n in ast.walk(f0.node):
-                if isinstance(n, ast.Attribute) and n.attr in flags:
-                    # polarity: under how many ``not`` the flag is read
-                    neg = 0
-                    p = prog.parent(n)
-                    while isinstance(p, ast.UnaryOp) and isinstance(
-                            p.op, ast.Not):
-                        neg += 1
-                        p = prog.parent(p)
-                    used.add((n.attr, neg % 2 == 1))
+        comps = [n for f0 in fs for n in ast.walk(f0.node)
+                 if isinstance(n, (ast.ListComp, ast.SetComp,
+                                   ast.GeneratorExp)) and any(
+                     g.ifs for g in n.generators)]
+        if comps and not targets:
+            # the list view written as a comprehension: its filter
+            from ..astpaths import _facts
+            for cnode in comps:
+                for g in cnode.generators:
+                    for t in g.ifs:
+                        for atom, pol in _facts(t, True):
+                            if isinstance(atom, ast.Attribute) and \
+                                    atom.attr in flags:
+                                used.add((atom.attr, 'T' if pol else 'F'))
+            targets = []
+        elif not targets:
+            targets = [sgv.exits['T']]
+        for tg in targets:
+            for pol, atom, fn_, cn_ in Q.control_facts(sgv, tg):
+                if isinstance(atom, ast.Attribute) and atom.attr in flags:
+                    used.add((atom.attr, pol))
         views[m.qualname] = used
     if len(views) < 3:
         raise AnalysisError('only %d created-file views on %s' % (
